@@ -153,7 +153,22 @@ class NameSanitizer:
 
     @staticmethod
     def sanitize_class_name(name: str) -> str:
-        """Convert a raw name into a valid Python class name in PascalCase."""
+        """Convert a raw name into a valid Python class name in PascalCase.
+
+        The result is a fixed point: sanitising a class name again returns it unchanged. Names are sanitised at several
+        stages (promotion of inline schemas, model emission, import rendering); without this, "x-y z" became "XYZ" at one
+        stage and "Xyz" at the next, and the generated import no longer matched the generated class.
+        """
+        cls_name = NameSanitizer._sanitize_class_name_once(name)
+        for _ in range(3):
+            again = NameSanitizer._sanitize_class_name_once(cls_name)
+            if again == cls_name:
+                break
+            cls_name = again
+        return cls_name
+
+    @staticmethod
+    def _sanitize_class_name_once(name: str) -> str:
         # Split on non-alphanumeric and camel case boundaries
         words = re.findall(r"[A-Z]+(?=[A-Z][a-z])|[A-Z]?[a-z]+|[A-Z]+|[0-9]+", name)
         if not words:  # Fallback if findall is empty (e.g. if name was all symbols)
